@@ -327,7 +327,7 @@ fn eval(a: &[String]) -> String {
         }
         return out;
       }
-      'scan: for y in [1900isize, 1990, 2000, 2015, 2021, 2023, 2024, 2026, 2100, 3000] {
+      'scan: for y in [1900isize, 1990, 2000, 2015, 2021, 2023, 2024, 2026, 2100, 3000, 1928, 1610, 1625, 1650, 1700, 1807] {
         let lichun = dn(&SolarTerm::from_index(y, 3).get_julian_day().get_solar_day());
         let jie: Vec<i64> = (0..13).map(|k| dn(&SolarTerm::from_index(y, 3 + 2 * k).get_julian_day().get_solar_day())).collect();
         let prev_jie: Vec<i64> = (0..2).map(|k| dn(&SolarTerm::from_index(y, -1 + 2 * k).get_julian_day().get_solar_day())).collect(); // 大雪(y-1) = index -1, 小寒 = index 1
@@ -345,6 +345,10 @@ fn eval(a: &[String]) -> String {
           let exp_stem = (first + q).rem_euclid(10) as usize;
           let exp_branch = (2 + q).rem_euclid(12) as usize;
           let got_m = sc.get_month();
+          if sc.get_sixty_cycle().get_index() as i64 != (o + 49).rem_euclid(60) {
+            out = format!("{}-{}-{}: day pillar of the view {} (expected {})", day.get_year(), day.get_month(), day.get_day(), sc.get_sixty_cycle().get_index(), (o + 49).rem_euclid(60));
+            break 'scan;
+          }
           if sc.get_year().get_index() != exp_year || got_m.get_heaven_stem().get_index() != exp_stem || got_m.get_earth_branch().get_index() != exp_branch {
             out = format!("{}-{}-{}: year pillar {} (expected {}), month pillar {} (expected stem {} branch {})", day.get_year(), day.get_month(), day.get_day(),
                           sc.get_year().get_index(), exp_year, got_m.get_index(), exp_stem, exp_branch);
@@ -556,6 +560,13 @@ fn eval(a: &[String]) -> String {
       use tyme4rs::tyme::sixtycycle::SixtyCycleYear;
       let mut out = "NONE".to_string();
       'scan: for y in 2019isize..=2026 {
+        let ly = LunarYear::from_year(y);
+        let ms0 = ly.get_months();
+        let sum: usize = ms0.iter().map(|m| m.get_day_count()).sum();
+        let dist = LunarYear::from_year(y + 1).get_months()[0].get_first_julian_day().subtract(ms0[0].get_first_julian_day());
+        if ms0.len() != ly.get_month_count() || ly.get_day_count() != sum || (dist + 0.5).floor() as usize != sum || ms0.iter().any(|m| m.get_year() != y) || ms0[0].get_month_with_leap() != 1 {
+          out = format!("lunar year {}: {} months listed (count {}), day count {} vs sum {} vs distance to the next new year {}", y, ms0.len(), ly.get_month_count(), ly.get_day_count(), sum, dist); break 'scan;
+        }
         for mon in LunarYear::from_year(y).get_months() {
           let days = mon.get_days();
           if days.len() != mon.get_day_count() { out = format!("lunar month {} {}: {} days listed, day count {}", y, mon.get_month_with_leap(), days.len(), mon.get_day_count()); break 'scan; }
@@ -572,11 +583,23 @@ fn eval(a: &[String]) -> String {
           let sh = sd.get_sixty_cycle_day().get_hours();
           let p = sd.next(-1);
           let t0 = SolarTime::from_ymd_hms(p.get_year(), p.get_month(), p.get_day(), 23, 0, 0);
-          if sh.len() != 12 || sh.iter().enumerate().any(|(k, h)| h.get_solar_time().subtract(t0) != 7200 * k as isize) {
+          let same = |h: &tyme4rs::tyme::sixtycycle::SixtyCycleHour| { let w = h.get_solar_time().get_sixty_cycle_hour();
+            w.get_year().get_index() == h.get_year().get_index() && w.get_month().get_index() == h.get_month().get_index() && w.get_day().get_index() == h.get_day().get_index() && w.get_sixty_cycle().get_index() == h.get_sixty_cycle().get_index() };
+          if sh.len() != 12 || sh.iter().enumerate().any(|(k, h)| h.get_solar_time().subtract(t0) != 7200 * k as isize || !same(h)) {
             out = format!("double-hours of sexagenary day {}-{}-{}", sd.get_year(), sd.get_month(), sd.get_day()); break 'scan;
           }
         }
         let ms = SixtyCycleYear::from_year(y).get_months();
+        // the double hours of every Jie day (the month / year pillars turn inside such a day)
+        for k in 0..12isize {
+          let jd = SolarTerm::from_index(y, 1 + 2 * k).get_julian_day().get_solar_day();
+          for h in jd.get_sixty_cycle_day().get_hours() {
+            let w = h.get_solar_time().get_sixty_cycle_hour();
+            if w.get_year().get_index() != h.get_year().get_index() || w.get_month().get_index() != h.get_month().get_index() || w.get_day().get_index() != h.get_day().get_index() || w.get_sixty_cycle().get_index() != h.get_sixty_cycle().get_index() {
+              out = format!("double-hours of the Jie day {}-{}-{}: slot at {}h", jd.get_year(), jd.get_month(), jd.get_day(), h.get_solar_time().get_hour()); break 'scan;
+            }
+          }
+        }
         for (k, m) in ms.iter().enumerate() {
           let ds = m.get_days();
           let first = m.get_first_day().get_solar_day();
@@ -787,6 +810,8 @@ fn eval(a: &[String]) -> String {
       let mut ts: Vec<SolarTime> = Vec::new();
       let mut t = SolarTime::from_ymd_hms(2023, 3, 20, 22, 59, 58);
       for k in 0..60 { ts.push(t); t = t.next(if k % 4 == 0 { 1 } else if k % 4 == 1 { 61 } else if k % 4 == 2 { 3600 } else { 86400 * 7 + 5 }); }
+      // one day with instants in the same and in neighbouring double hours (odd hour h and h + 1 share a double hour)
+      for (h, mi, se) in [(1usize, 50usize, 0usize), (2, 10, 0), (2, 10, 1), (2, 9, 59), (3, 5, 0), (4, 0, 59), (23, 0, 0), (0, 30, 0), (22, 59, 59)] { ts.push(SolarTime::from_ymd_hms(2024, 6, 6, h, mi, se)); }
       let mut out = "NONE".to_string();
       'scan: for a in ts.iter() { for b in ts.iter() {
         let (la, lb) = (a.get_lunar_hour(), b.get_lunar_hour());
